@@ -253,6 +253,7 @@ def instances(tier):
         I("cap2-k2-dtq", "make", (2, 2, 4, "dtq"), "capacity 2, 2 updates in a 4 s span + datetime query", budget_s=600, **kw),
         I("cap2-k2-idxq", "make", (2, 2, 2, "idxq"), "capacity 2, 2 updates in a 2 s span + index query", budget_s=600, **kw),
         I("cap2-k2-at", "make_at", (2, 2, 4), "MovingWindow.at / [] with index or datetime key, capacity 2, 2 updates", budget_s=300, **kw),
+        I("cap3-k2-at", "make_at", (3, 2, 5), "MovingWindow.at / [] with capacity 3 (interior gaps inside the covered range), 2 updates (budgeted)", budget_s=200, exhaustive=False, **kw),
         I("grid-cap4-k4-state", "make", (4, 4, 6, "state", False, True), "capacity 4, 4 updates on the slot grid (7 slots): state after every update", budget_s=300, **kw),
         I("grid-cap3-k3-dtq", "make", (3, 3, 4, "dtq", False, True), "capacity 3, 3 updates on the slot grid (5 slots) + symbolic datetime query", budget_s=300, **kw),
         I("grid-cap3-k3-state-200ms", "make", (3, 3, 5, "state", False, True, 200_000),
